@@ -6,5 +6,5 @@ for spec in "$@"; do
   prop=$1; k=$2; shift 2
   low=$(echo $prop | tr A-Z a-z)
   echo "=== $prop-$k (extra: $*)"
-  python3 tools/seeded.py $prop /tmp/mut_$low $k "$@" 2>&1 | tail -4 | cut -c1-300
+  python3 tools/seeded.py $prop ${MUT_PREFIX:-/tmp/mut_}$low $k "$@" 2>&1 | tail -4 | cut -c1-300
 done
